@@ -180,6 +180,12 @@ impl varlink::Interface for ScriptIface {
                     call.to_upgraded();
                     results.push("set".into());
                 }
+                "g" => {
+                    // the upgraded service speaks first: raw bytes right behind the reply that confirmed the upgrade
+                    let _ = call.writer.write_all(format!("HELLO-{}\n", tok).as_bytes());
+                    let _ = call.writer.flush();
+                    results.push("set".into());
+                }
                 "z" => {
                     // harness-only step: a slow method implementation (C15: streaming reply in flight)
                     std::thread::sleep(std::time::Duration::from_millis(40));
